@@ -23,6 +23,9 @@ mod c19;
 mod ctx;
 mod explore;
 mod frames;
+mod memstream;
+mod selftest;
+mod wsh;
 mod par;
 mod stream_sys;
 
@@ -54,6 +57,7 @@ fn run(prop: &str, tier: Tier) -> ! {
         "C17" => c17::run(tier),
         "C18" => c18::run(tier),
         "C19" => c19::run(tier),
+        "SELFTEST" => selftest::run(),
         _ => {
             eprintln!("unknown property {prop}");
             std::process::exit(2)
